@@ -31,11 +31,11 @@ m = {
  "engines": [
   {"name": "lean-model", "path": "/verif/lean", "serves_properties": sorted(obl), "kind_free_text": "Lean 4 model of gtree (Gtree/Model), specification (Gtree/Spec), property theorems (Gtree/Props), native line-protocol driver (Main.lean)"},
   {"name": "harness", "path": "/verif/harness", "serves_properties": sorted(obl), "kind_free_text": "Go differential correspondence harness: real code in-process (or the built binaries) vs the Lean driver, rebuilt from /repo on every run"},
-  {"name": "translate", "path": "/verif/translate", "serves_properties": ["C01", "C02", "C03", "C04", "C05", "C06", "C07", "C08", "C09", "C10", "C12", "C15", "C17"], "kind_free_text": "go/ast translator: pure functions of /repo (markdown/parser.go Parse/separateRow/validateSpaces/calculateHierarchy/isBlank, IsSymbol, isRootBlockBeginning, isSharpRootRow, nodeGenerator.handleErr) statement by statement into Gtree/Generated/Source.lean on every run; Lemmas/SourceRefines.lean proves them equal to the hand-written model"},
+  {"name": "translate", "path": "/verif/translate", "serves_properties": ["C01", "C02", "C03", "C04", "C05", "C06", "C07", "C08", "C09", "C10", "C12", "C15", "C17"], "kind_free_text": "go/ast translator: pure functions of /repo (markdown/parser.go Parse/separateRow/validateSpaces/calculateHierarchy/isBlank, IsSymbol, isRootBlockBeginning, isSharpRootRow, nodeGenerator.handleErr, node predicates, validatePath, the verifier's verdict, WalkerNode accessors, config.go) statement by statement into Gtree/Generated/Source.lean on every run (Lemmas/SourceRefines.lean, SourceConfig.lean); heap mode (heap.go): the pointer code of the grower and the mkdirer over an explicit heap into Gtree/Generated/SourceHeap.lean (Lemmas/HeapGrower.lean, HeapMkdir.lean prove it equal to the hand-written model)"},
   {"name": "extract", "path": "/verif/extract", "serves_properties": ["C03", "C07", "C09", "C10", "C11", "C13", "C16", "C17"], "kind_free_text": "go/ast fact extractor regenerating Gtree/Generated/Facts.lean on every run"}
  ],
  "checks": checks,
- "notes": "Every check: regenerate Facts.lean and Source.lean from /repo, lake build (model, proofs, driver), #print axioms audit of the property theorems, rebuild the harness against /repo's working tree with -tags verif, run the correspondence suites, write evidence. See DESIGN.md.",
+ "notes": "Every check: regenerate Facts.lean, Source.lean and SourceHeap.lean from /repo, lake build (model, proofs, driver), #print axioms audit of the property theorems, rebuild the harness against /repo's working tree with -tags verif, run the correspondence suites, write evidence. See DESIGN.md.",
  "not_applicable": TEXT.get("_not_applicable", [])
 }
 json.dump(m, open(os.path.join(V, "MANIFEST.json"), "w"), indent=1, ensure_ascii=False)
